@@ -81,7 +81,9 @@ def index_sorts(repo, run, m):
         raise AnalysisError("anchor missing: prepare_events result unpacking")
     pe = repo.get(DS, "prepare_events")
     run.analysed_fn(DS, pe)
-    alloc_ok = any(isinstance(st, ast.Assign) and src(st.targets[0]) == "last_occurrence" and "len(events)" in src(st.value) for st in ast.walk(pe))
+    from ..sym import inline_locals
+    cpe = Canon(env=inline_locals(pe))
+    alloc_ok = any(isinstance(st, ast.Assign) and src(st.targets[0]) == "last_occurrence" and "len(events)" in cpe.text(st.value) for st in ast.walk(pe))
     run.judged(rid, "last_occurrence allocated with len(events) entries (one per event)", ok=alloc_ok)
     if not alloc_ok:
         run.report("C07.2", DS, pe, "last_occurrence is not allocated per event", text="last_occurrence allocation")
@@ -137,7 +139,7 @@ def boolean_functions(repo, run):
     for st in fn.body:
         if isinstance(st, ast.Assign) and isinstance(st.value, ast.ListComp) and isinstance(st.targets[0], ast.Name):
             call = st.value.elt
-            if isinstance(call, ast.Call) and call.args:
+            if isinstance(call, ast.Call) and call.args and isinstance(call.func, ast.Subscript):
                 a = call.args[0]
                 if isinstance(a, ast.BinOp) and isinstance(a.op, ast.Sub):
                     samples[st.targets[0].id] = 0
@@ -284,7 +286,8 @@ def in_step_test(repo, run, m):
     okg = isinstance(iff, ast.If) and tp[0] in iff.body and tp[1] in iff.orelse
     ke = KindEngine(m.fn, seeds.ode_seeds(), disciplines=("DIR",))
     okg = okg and ke._is_dir_test(iff.test)
-    c = Canon()
+    from ..sym import inline_locals
+    c = Canon(env=inline_locals(m.fn))
 
     def pairs(expr):
         out = set()
@@ -298,7 +301,7 @@ def in_step_test(repo, run, m):
                     out.add((b, a))
                 left = r
         return out
-    start = "self.__t[self.counter]"
+    start = c.poly(ast.parse("self.__t[self.counter]", mode="eval").body).canon()
     # previous time name
     prev = None
     for st in ast.walk(m.loop):
